@@ -40,6 +40,23 @@ def _join_bag(eng, st, sep, coll):
 
 REG.join_bag_fn = _join_bag
 
+# ---------------------------------------------------------------- the verb prefix: DEFINED here (c_strings.py declared it uninterpreted and assumed _get_verb_prefix)
+# wording as the messages are documented: 'X imports Y' / 'X does not import Y' / 'Sub modules of X do not import Y' / 'X is [not] imported by Y' / '... are [not] imported by Y'
+
+
+def _verb_prefix(eng, st, import_rule, negated, singular):
+    i, n, s_ = eng.truth(import_rule), eng.truth(negated), eng.truth(singular)
+    sv = z3.StringVal
+    return V(("str",), z3.If(i, z3.If(n, z3.If(s_, sv("does not "), sv("do not ")), sv("")),
+                             z3.If(s_, z3.If(n, sv("is not "), sv("is ")), z3.If(n, sv("are not "), sv("are ")))))
+
+
+REG.specfuns["verb_prefix"] = _verb_prefix
+# _get_verb_prefix: registered in c_strings.py as an assumed table lookup; now VERIFIED against the definition above (the module-level table PREFIX_MAPPING is read from the source)
+_c = REG.contracts["RuleViolationMessageGenerator._get_verb_prefix"]
+_c.status, _c.view, _c.properties = "verify", "string", ["C03"]
+_c.note = "PREFIX_MAPPING[(import_rule, negated, singular)]: the module-level defaultdict(str) table is evaluated from the source (engine: constant table), missing key -> ''"
+
 # ---------------------------------------------------------------- vocabulary
 # texts of one module in the role of rule object / rule subject of a 'does not import' line
 REG.macro("rule_object_txt", ["o"], "('a sub module of ' if is_group(o) else '') + quoted(mid(o))")
